@@ -2,13 +2,14 @@
 import cpu_props
 
 ID = 'C13'
-LEAN_MODULES = ['Py65.Props.C13', 'Py65.Props.C13b', 'Py65.Props.C13h']
+LEAN_MODULES = ['Py65.Props.C13', 'Py65.Props.C13b', 'Py65.Props.C13h', 'Py65.Props.C13t']
 EXPECTED_THEOREMS = ['Py65.Props.C13.cycles_nmos6502', 'Py65.Props.C13.cycles_org16', 'Py65.Props.C13.cycles_cmos_partial',
                      'Py65.Props.C13.cycles_table_6502', 'Py65.Props.C13.bra_deviation', 'Py65.Props.C13.irq_cycles',
                      'Py65.Props.C13h.cycles_history', 'Py65.Props.C13h.cycles_history_6502',
                      'Py65.Props.C13h.cycles_monotone_history', 'Py65.Props.C13h.cycles_monotone_prefix',
                      'Py65.Props.C13h.cycles_since_reset', 'Py65.Props.C13h.cycles_history_65c02_exact',
-                     'Py65.Props.C13h.bra_step_cycles', 'Py65.Props.C13h.cycles_monotone_history_65c02']
+                     'Py65.Props.C13h.bra_step_cycles', 'Py65.Props.C13h.cycles_monotone_history_65c02',
+                     'Py65.Props.C13.tables_have_256_entries']
 NAMESPACES = ['Py65.Props.C13', 'Py65.Props.C13h']
 # library helpers (CPython behaviour modelled in lean/Py65/Model/*Rt*.lean ...) that the generated code of these
 # modules calls, derived by scanning the Lean sources (harness/rtscan.py); validated against CPython on every run
